@@ -14,7 +14,7 @@
 //! factorisation of that caller's input, S4 complete whenever both references are, S5 relation observer.
 
 use crate::common::{Family, Report, Tier, Violation};
-use crate::oracles::primes::next_prime;
+use crate::oracles::primes::{gen_prime, is_prime, next_prime};
 use crate::scen::factor::{
     check_c01, gen_sim_cfg, gen_spec, install_relation_observer, is_complete, Answer, ObsStats, Spec,
 };
@@ -129,11 +129,66 @@ pub fn run_multi(spec: &MSpec, only: Option<usize>, preset_latch: bool, threads:
     MOut { sim, answers, obs }
 }
 
+/// A prime p of about `bits` bits such that p - 1 = 2 * (primes below 600) * (at most one prime below 40000):
+/// found by the quick P-1 stage of the automatic strategy (B1 = 600, B2 = 40e3 for inputs of 85-190 bits).
+fn gen_pm1_smooth_prime(rng: &mut Rng, bits: u32) -> u128 {
+    loop {
+        let mut m: u128 = 2;
+        while 128 - m.leading_zeros() + 15 < bits {
+            let r = loop {
+                let r = rng.range(2, 599) as u128;
+                if is_prime(r) {
+                    break r;
+                }
+            };
+            m *= r;
+        }
+        for _ in 0..200 {
+            let r = loop {
+                let r = rng.range(601, 39_999) as u128;
+                if is_prime(r) {
+                    break r;
+                }
+            };
+            let p = m * r + 1;
+            if is_prime(p) {
+                return p;
+            }
+        }
+    }
+}
+
+/// An input for `Algo::Auto` on which the quick P-1 stage succeeds: one factor with smooth p - 1, one or two
+/// ordinary primes; above 128 bits in half of the cases (the automatic strategy then uses the pooled ECM driver).
+fn gen_pm1_caller(rng: &mut Rng) -> Spec {
+    let total = if rng.chance(0.5) { rng.range(130, 150) } else { rng.range(88, 128) } as u32;
+    let pb = rng.range(36, 56) as u32;
+    let p = gen_pm1_smooth_prime(rng, pb);
+    let rest = total.saturating_sub(128 - p.leading_zeros()).max(40);
+    let mut primes = vec![p];
+    if rest > 80 && rng.chance(0.5) {
+        primes.push(gen_prime(rng, rest / 2));
+        primes.push(gen_prime(rng, rest - rest / 2));
+    } else {
+        primes.push(gen_prime(rng, rest.min(120)));
+    }
+    primes.sort();
+    let mut n = Uint::ONE;
+    for &q in &primes {
+        n = n * Uint::from(q);
+    }
+    Spec { n, primes, algo: Algo::Auto, fb_size: None, interval_size: None, large_factor: None, use_double: None, shape: "pm1_smooth_factor".into() }
+}
+
 fn gen_mspec(rng: &mut Rng, tier: Tier) -> MSpec {
     let k = if rng.chance(0.7) { 2 } else { 3 };
     let auto_profile = rng.chance(0.65);
     let mut callers: Vec<Spec> = vec![];
-    for _ in 0..k {
+    for i in 0..k {
+        if auto_profile && rng.chance(if i == 0 { 0.5 } else { 0.2 }) {
+            callers.push(gen_pm1_caller(rng));
+            continue;
+        }
         let mut tries = 0;
         let s = loop {
             tries += 1;
